@@ -111,3 +111,17 @@ Theorem C19_closed_forever : forall ttl chk st e,
   (stopped st <= stopped (fst (bstep ttl chk true st e)))%N.
 Proof. exact closed_and_stopped. Qed.
 Print Assumptions C19_closed_forever.
+
+(* safety form of "every message asked for is eventually fetched": in every reachable state, once Observe has
+   answered - and after any worker pick-ups that follow - every message asked for is served from the cache, or waits
+   in the queue, or is being fetched; it is never silently dropped. (The correspondence check evaluates the same
+   clause on the implementation: `accounted` in Check/C19_check.v, against the queue / gate contents it reads.) *)
+Theorem C19_asked_is_accounted : forall ttl chk W st ms now takes,
+  binv W st ->
+  let st1 := fst (observe chk true st ms now) in
+  let st2 := bstate ttl chk true st1 (map BTake takes) in
+  forall m, In m ms ->
+    (exists d, cache_get chk now (cache st) (m_id m) = Some d) \/
+    In (m_id m) (map qid (queue st2)) \/ In (m_id m) (inflight st2).
+Proof. exact asked_is_accounted. Qed.
+Print Assumptions C19_asked_is_accounted.
